@@ -57,7 +57,7 @@ GList *nice_interfaces_get_local_interfaces (void) { return NULL; }
 gchar *nice_interfaces_get_ip_for_interface (gchar *n) { return NULL; }
 guint nice_interfaces_get_if_index_by_addr (NiceAddress *a) { return 0; }
 gboolean nice_interfaces_is_private_ip (const struct sockaddr *sa) { return TRUE; }
-static int trace_pkts = 1;
+static int trace_pkts = 1; static int srv_loss;
 
 static VSock *vsock_find (const NiceAddress *a)
 {
@@ -146,7 +146,7 @@ static void net_send (const NiceAddress *from, const NiceAddress *to, const guin
   if (is_atk_addr (to)) { if (trace_pkts) T ("pkt %s %s toatk %s", fa, ta, sum); return; }   /* answers to the attacker: off the modelled network, no PRNG use */
   if (!strncmp (sum, "stun c0", 7) && n <= 1500) { ReqLog *r = &reqlog[reqlog_n++ % 16]; r->from = *from; r->to = *to; memcpy (r->d, d, n); r->n = n; }
   if (g_hash_table_contains (blackhole, k) || g_hash_table_contains (blackhole, k2)) { fate = "blackhole"; copies = 0; }
-  else if (!is_server (to) && !is_server (from)) {
+  else if (srv_loss || (!is_server (to) && !is_server (from))) {
     /* Loss is decided per check ATTEMPT (one transmission of a binding request together with its response), per candidate pair and
      * direction of the check: an attempt is lost by dropping the request or by dropping one response carrying its transaction id; fewer
      * than max_consec_loss consecutive attempts are lost on a (pair, direction).  Other packets (data, indications) are dropped per direction. */
@@ -255,14 +255,14 @@ static void run_for (long ms)
 
 /* ------------------------------------------------------------------ scripted STUN / TURN servers */
 typedef struct { NiceAddress addr; char mode[32]; int count; } Server;
-static Server servers[8]; static int nservers;
+static Server servers[40]; static int nservers;
 static gboolean is_server (const NiceAddress *a) { for (int i = 0; i < nservers; i++) if (nice_address_equal (&servers[i].addr, a)) return TRUE; return FALSE; }
 static const uint16_t srv_known[] = { 0x0006, 0x0008, 0x0014, 0x0015, 0x0019, 0x000d, 0x0012, 0x000c, 0x001a, 0x0018, 0 };
 
 static void server_reply (Server *sv, const NiceAddress *to, StunMessage *rep, StunAgent *ag, uint8_t *buf, const uint8_t *key, size_t klen)
 {
   size_t l = stun_agent_finish_message (ag, rep, key, klen);
-  if (l) { net_send (&sv->addr, to, buf, l); if (!strcmp (sv->mode, "twice")) net_send (&sv->addr, to, buf, l); }
+  if (l) { net_send (&sv->addr, to, buf, l); if (strstr (sv->mode, "twice")) net_send (&sv->addr, to, buf, l); }
 }
 
 static void server_handle (const NiceAddress *srv, const NiceAddress *from, const guint8 *d, gsize n)
@@ -272,7 +272,9 @@ static void server_handle (const NiceAddress *srv, const NiceAddress *from, cons
   if (!strcmp (sv->mode, "silent")) return;
   if (!strcmp (sv->mode, "garbage")) { guint8 g[40]; for (int i = 0; i < 40; i++) g[i] = rnd (); net_send (&sv->addr, from, g, 20 + rnd () % 20); return; }
   StunAgent ag; stun_agent_init (&ag, srv_known, STUN_COMPATIBILITY_RFC5389, STUN_AGENT_USAGE_IGNORE_CREDENTIALS | STUN_AGENT_USAGE_NO_INDICATION_AUTH);
-  StunMessage req; StunValidationStatus st = stun_agent_validate (&ag, &req, d, n, NULL, NULL);
+  StunMessage req; StunValidationStatus st = stun_agent_validate (&ag, &req, d, n, NULL, NULL); int old3489 = 0;
+  if (st == STUN_VALIDATION_BAD_REQUEST) { /* no magic cookie: a classic RFC 3489 request (libnice's STUN server discovery) */ stun_agent_init (&ag, srv_known, STUN_COMPATIBILITY_RFC3489, STUN_AGENT_USAGE_IGNORE_CREDENTIALS); st = stun_agent_validate (&ag, &req, d, n, NULL, NULL); old3489 = 1; }
+  if (getenv ("SIM_DEBUG")) fprintf (stderr, "server %s: validate=%d class=%d method=%d\n", sv->mode, st, st < 3 ? -1 : (int) stun_message_get_class (&req), st < 3 ? -1 : (int) stun_message_get_method (&req));
   if (st == STUN_VALIDATION_NOT_STUN || st == STUN_VALIDATION_INCOMPLETE_STUN || st == STUN_VALIDATION_BAD_REQUEST) return;
   if (stun_message_get_class (&req) != STUN_REQUEST) return;
   uint8_t buf[1000]; StunMessage rep; struct sockaddr_storage ss; nice_address_copy_to_sockaddr (from, (struct sockaddr *) &ss);
@@ -290,11 +292,11 @@ static void server_handle (const NiceAddress *srv, const NiceAddress *from, cons
   if (m == STUN_BINDING) {
     /* reflexive address = the source as seen by the server; "nat" mode maps 10.x to 198.51.100.x */
     NiceAddress mapped = *from;
-    if (!strcmp (sv->mode, "nat")) { char ip[64]; nice_address_to_string (from, ip); unsigned a, b, c, e; if (sscanf (ip, "%u.%u.%u.%u", &a, &b, &c, &e) == 4) { char nip[64]; sprintf (nip, "198.51.%u.%u", c, e); nice_address_set_from_string (&mapped, nip); nice_address_set_port (&mapped, nice_address_get_port (from)); } }
+    if (strstr (sv->mode, "nat")) { char ip[64]; nice_address_to_string (from, ip); unsigned a, b, c, e; if (sscanf (ip, "%u.%u.%u.%u", &a, &b, &c, &e) == 4) { char nip[64]; sprintf (nip, "198.51.%u.%u", c, e); nice_address_set_from_string (&mapped, nip); nice_address_set_port (&mapped, nice_address_get_port (from)); } }
     nice_address_copy_to_sockaddr (&mapped, (struct sockaddr *) &ss);
     stun_agent_init_response (&ag, &rep, buf, sizeof buf, &req);
-    stun_message_append_xor_addr (&rep, STUN_ATTRIBUTE_XOR_MAPPED_ADDRESS, &ss, sizeof ss);
-    if (!strcmp (sv->mode, "late")) { long a = d_min_us, b = d_max_us; d_min_us = d_max_us = 1500000; server_reply (sv, from, &rep, &ag, buf, NULL, 0); d_min_us = a; d_max_us = b; return; }
+    if (old3489) stun_message_append_addr (&rep, STUN_ATTRIBUTE_MAPPED_ADDRESS, (struct sockaddr *) &ss, sizeof ss); else stun_message_append_xor_addr (&rep, STUN_ATTRIBUTE_XOR_MAPPED_ADDRESS, &ss, sizeof ss);
+    if (strstr (sv->mode, "late")) { long a = d_min_us, b = d_max_us; d_min_us = d_max_us = 1500000; server_reply (sv, from, &rep, &ag, buf, NULL, 0); d_min_us = a; d_max_us = b; return; }
     server_reply (sv, from, &rep, &ag, buf, NULL, 0); return;
   }
   if (m == STUN_ALLOCATE || m == STUN_REFRESH) {
@@ -425,6 +427,7 @@ static void do_op (char *op)
   else if (!strcmp (a[0], "net")) { p_drop = atof (a[1]); p_dup = atof (a[2]); d_min_us = atol (a[3]) * 1000; d_max_us = atol (a[4]) * 1000; if (n > 5) max_consec_loss = I (5); }
   else if (!strcmp (a[0], "hole")) { /* hole,ipA,ipB,on|off  (directional) */ char k[200]; sprintf (k, "%s>%s", a[1], a[2]); if (!strcmp (a[3], "on")) g_hash_table_insert (blackhole, g_strdup (k), GINT_TO_POINTER (1)); else g_hash_table_remove (blackhole, k); T ("net hole %s %s", k, a[3]); }
   else if (!strcmp (a[0], "server")) { Server *sv2 = &servers[nservers++]; sv2->addr = mkaddr (a[1], I (2)); strncpy (sv2->mode, a[3], 31); sv2->count = 0; T ("net server %s:%s %s", a[1], a[2], a[3]); }
+  else if (!strcmp (a[0], "srvloss")) srv_loss = I (1);
   else if (!strcmp (a[0], "servermode")) { strncpy (servers[I (1)].mode, a[2], 31); }
   else if (!strcmp (a[0], "stun")) { g_object_set (A[I (1)].agent, "stun-server", a[2], "stun-server-port", (guint) I (3), NULL); T ("api %d stun-server %s:%s", I (1), a[2], a[3]); }
   else if (!strcmp (a[0], "relay")) { gboolean r = nice_agent_set_relay_info (A[I (1)].agent, I (2), I (3), a[4], I (5), "user", "pass", NICE_RELAY_TYPE_TURN_UDP); T ("api %d set_relay_info %d %d %s:%s =%d", I (1), I (2), I (3), a[4], a[5], r); }
@@ -476,7 +479,7 @@ int main (void)
     ctx = g_main_context_new (); vsocks = g_ptr_array_new (); inflight = NULL; pkt_serial = 0; next_port = 40000; nagents = 0; nservers = 0; memset (A, 0, sizeof A);
     consec = g_hash_table_new_full (g_str_hash, g_str_equal, g_free, NULL); resp_tokens = g_hash_table_new_full (g_str_hash, g_str_equal, g_free, NULL); blackhole = g_hash_table_new_full (g_str_hash, g_str_equal, g_free, NULL);
     for (int i = 0; i < n_vif; i++) g_free (vif[i]); n_vif = 0;
-    atk_period_us = 0; atk_next_us = G_MAXINT64; reqlog_n = 0; for (int i = 0; i < 4; i++) { g_free (old_ufrag[i]); g_free (old_pwd[i]); old_ufrag[i] = old_pwd[i] = NULL; }
+    atk_period_us = 0; atk_next_us = G_MAXINT64; reqlog_n = 0; srv_loss = 0; for (int i = 0; i < 4; i++) { g_free (old_ufrag[i]); g_free (old_pwd[i]); old_ufrag[i] = old_pwd[i] = NULL; }
     p_drop = p_dup = 0; d_min_us = d_max_us = 1000; max_consec_loss = 2; vnow_us = 1000000000LL; dispatch_count = 0; trace_pkts = 1; spinning = 0;
     fprintf (hc_out, "%s", id);
     char *op; int aborted = 0;
